@@ -602,7 +602,11 @@ def find_group_cohorts(
         merged_keys.update(cohort)
         allchunks = (label_chunks[member].tolist() for member in cohort)
         chunk = tuple(set(itertools.chain(*allchunks)))
-        merged_cohorts[chunk] = cohort
+        if chunk in merged_cohorts:
+            # another cohort already occupies exactly these chunks; do not overwrite it.
+            merged_cohorts[chunk].extend(cohort)
+        else:
+            merged_cohorts[chunk] = cohort
 
     actual_ngroups = np.concatenate(tuple(merged_cohorts.values())).size
     expected_ngroups = present_labels.size
